@@ -87,6 +87,15 @@ def _weak_exclusive(rows):
     return n, sample
 
 
+def _dedupe(vs):
+    seen, out = set(), []
+    for v in vs:
+        if v.key not in seen:
+            seen.add(v.key)
+            out.append(v)
+    return out
+
+
 def run(ctx):
     workers = ctx.pick(8, 16)
     notes = []
@@ -106,6 +115,7 @@ def run(ctx):
     # ---------------------------------------------------------------- conformance
     tdir = ctx.subdir("traces")
     violations = []
+    divergences = []
     totals = {"traces": 0, "requests": 0, "accepted": 0, "conflicts": 0, "distinct_classes": 0, "events": 0, "pairs": 0}
     samples = []
     selfcheck = None
@@ -148,11 +158,12 @@ def run(ctx):
             if r["kind"] == "divergence":
                 evs = conf.case_events(rows, r["line"])
                 last = evs[-1]
-                raise InfraError("conflicts trace %s: request %s with in-progress [%s] returned %r, which deviates from "
-                                 "Conflicts at line %d without violating a C14 invariant (e.g. an over-strict rejection or a "
-                                 "different affected-snap set: %s) -- model/code divergence to triage"
-                                 % (name, _req(last), "; ".join(_live(evs[-2]) if len(evs) > 1 else []),
-                                    last["res"]["result"], r["line"], json.dumps(last["st"]["changes"])))
+                divergences.append("conflicts trace %s: request %s with in-progress [%s] returned %r, which deviates from "
+                                   "Conflicts at line %d without violating a C14 invariant (e.g. an over-strict rejection or a "
+                                   "different affected-snap set: %s) -- model/code divergence to triage"
+                                   % (name, _req(last), "; ".join(_live(evs[-2]) if len(evs) > 1 else []),
+                                      last["res"]["result"], r["line"], json.dumps(last["st"]["changes"])))
+                continue
             violations.append(_violation(rows, r, name))
             continue
         n, smp = _weak_exclusive(rows)
@@ -166,6 +177,8 @@ def run(ctx):
                                                   for c in ev["st"]["changes"]]})
         if name == "snapstate":
             selfcheck = conf.corruption_check(ctx, "TraceConflicts", "TraceConflicts.cfg", out, _corrupt, "conf")
+    if divergences and not violations:
+        raise InfraError(divergences[0])
     if not violations and (totals["conflicts"] < 20 or totals["accepted"] < 20 or totals["distinct_classes"] < 50):
         raise InfraError("vacuity guard: real executions too thin: %s" % totals)
     if weak_n:
@@ -174,6 +187,7 @@ def run(ctx):
                      "pass unfinished refresh-snap/revert-snap changes (TLC counterexample to ExclusiveAlone: %d states)"
                      % (weak_n, json.dumps(weak_sample), len(alone.trace)))
 
+    violations = _dedupe(violations)
     return Result(
         level="model_checking",
         coverage={
